@@ -29,7 +29,7 @@ def gen_history(rnd, n, maxops=6):
         elif r < 0.1:
             ops.append(("opt", rnd.choice(["mov", "swap", "nobase", "sib", "all"]), rnd.choice([0, 1, 2, 3])))
         elif r < 0.25:
-            ops.append(("chunk", rnd.choice([0, 1, 2, 3, 5, 8, 13, 16, 32, 64, 100])))
+            ops.append(("chunk", rnd.choice([0, 1, 2, 3, 5, 8, 13, 16, 32, 64, 100, 4, 6, 7, 9, 10, 11, 12, 17, 24, 48, 128, 255, 256, 1000, n + 5, max(2, n - 3), 2**64 - 1])))
         elif r < 0.45:
             ks = [0, n, max(0, n - 1), max(0, n - 19), max(0, n - 20), max(0, n - 21), n // 2, max(0, n - 33)]
             ops.append(("setoff", rnd.choice(ks + [rnd.randrange(0, n + 1)])))
@@ -182,7 +182,10 @@ def run(tier):
     nrand = 20000 if not full else 600000
     for k in range(nrand):
         n = rnd.choice([100, 400, 4096, 4097, 6000]) if k % 2 else (rnd.randrange(0, 200) if k % 4 else rnd.randrange(200, 2500))
-        h = gen_history(rnd, n)
+        if k % 25 == 7:
+            # lengths around the library's own default size and growth step, powers of two, and a little above 2^16 / 2^20
+            n = rnd.choice([5980, 5999, 6000, 6001, 6019, 6020, 6021, 8192, 12000, 12020, 32768, 65535, 65536, 65536 + 30, 100000, 1048576, 1048576 + 21]) if k % 50 == 7 else rnd.randrange(2500, 6100)
+        h = gen_history(rnd, n, maxops=6 if k % 5 else 14)
         fl, place = rnd.choice([("asan", "H"), ("plain", "R"), ("plain", "L")])
         jobs.append((fl, n, place, h, "random"))
     stats = {"cases": len(jobs), "calls": 0, "calls_failed_as_required": 0, "calls_succeeded": 0, "template_cases": 65 * 40 * 3, "random_cases": nrand, "rungrid_cases": sum(1 for j in jobs if j[4] == "rungrid"),
@@ -293,7 +296,7 @@ def run(tier):
             v.distinct(("reserve", t, n))
     v.cov["rule"] = ("histories create(n) + <=6 ops from {option setters, chunk size, asm_set_offset(0<=k<=n), assemble, counting assemble} with instructions of every length 1..17 (runs and mixtures), malformed lines and "
                      "failing calls followed by further calls without resetting the offset; n = 0..64 exhaustively x a fixed family of 40 templates x 3 guard placements (ASan heap redzones; guard page "
-                     "directly after / directly before the buffer with canary slack on the other side), a grid of runs of each instruction length that end around the end of buffers of 64..2048 bytes (plain, fitting, counting, start offset 13), then seeded random histories on n in {0..2499,4096,4097,6000}. Monitors: guard-page fault, "
+                     "directly after / directly before the buffer with canary slack on the other side), a grid of runs of each instruction length that end around the end of buffers of 64..2048 bytes (plain, fitting, counting, start offset 13), then seeded random histories (up to 14 operations; 28 chunk sizes incl. ones above n and SIZE_MAX) on n in {0..6100, 8192, 12000, 32768, 65535..65566, 100000, 2^20, 2^20+21}. Monitors: guard-page fault, "
                      "canary, snapshot of [0,start) around every call, ASan, and the room model (an instruction starting with < 20 bytes left => the call must fail). Plus: every line of the "
                      "encoder corpora (all memory shapes incl. displacements spelt as 64-bit two's complement, immediates, vector and branch forms; sampled in quick) assembled with exactly 20 bytes of room in front of a guard page")
     v.cov["exhaustive"] = True
